@@ -14,6 +14,8 @@ pub enum DamageKind {
     /// class 0: anywhere; 1: inside header (0..83); 2: exactly header (83); 3: inside filter/meta section;
     /// 4: inside tree meta; 5: node region; 6: leaf region; 7: len-1; 8: len - one record header; 9: zero length
     Truncate { class: u8, frac: u16 },
+    /// cut to exactly `len` bytes (no-op if the file is not longer)
+    TruncateTo { len: u32 },
     /// clear bit 0 of byte 72 (the `written` flag)
     ClearWritten,
     /// overwrite the whole header (83 bytes) with zeros
